@@ -21,7 +21,7 @@ PROFILES_QUICK = [
     {"cluster_size": 65536, "full": True, "sel": 3},
     {"cluster_size": 126 * 512, "full": True, "sel": 3},   # 63-sector tracks x 2: not a power of two
     {"cluster_size": 4096, "full": True, "sel": 3, "v1_unused": 0x1FF, "when": lambda img: img["ver"] == 1},  # garbage in the unused dword after the v1 size
-    {"cluster_size": 512, "full": False, "sel": 4, "pos_shift": 0x80000000},   # table entries with the top bit set (1 TiB and more into the file)
+    {"cluster_size": 1024, "full": False, "sel": 3, "pos_shift": 0x80000000, "when": lambda img: img["ver"] == 2},   # table entries with the top bit set (1 TiB and more into the file)
     {"cluster_size": 4096, "full": False, "sel": 4, "pos_shift": 0xFFFF0000 // 8, "when": lambda img: img["ver"] == 1},
 ]
 PROFILES_THOROUGH = PROFILES_QUICK + [
